@@ -34,6 +34,8 @@
 (*                      auto-increment counter                             *)
 (*  pk_get_sees_own_deleted the PK existence check of INSERT/UPSERT finds  *)
 (*                      a row the transaction itself deleted               *)
+(*  upd_own_inserted_u_fails UPDATE/UPSERT changing u of a row whose u was    *)
+(*                      written earlier in the same transaction fails      *)
 (*  ddl_first_pk_only   CREATE UNIQUE INDEX tests "table is empty" on the  *)
 (*                      first PK entry only (a tombstone there = empty)    *)
 (***************************************************************************)
@@ -146,15 +148,19 @@ PutRow(Q, T, S0, k, u, v, reuse, newmax, auto) ==
   LET cur == S0.view[k]
       same == reuse /\ Live(cur) /\ cur.u = u
       chk == S0.cidx /\ ~same
+      \* the old index entry of a row whose u changes is "deprecated" with a non-transient write; when that entry was
+      \* written by this very transaction (transient) the store refuses the write and the statement fails
+      trans == "upd_own_inserted_u_fails" \in Q /\ S0.cidx /\ reuse /\ Live(cur) /\ cur.u # u /\ (\E j \in Ids : <<cur.u, j>> \in S0.ulive)
       S == IF chk THEN TouchU(Q, T, S0) ELSE S0
       free == ~chk \/ UFree(Q, S, u, k)
       dfree == ~chk \/ UFree({}, S, u, k)
       tags == IF free # dfree THEN Blame(Q, UQuirks, LAMBDA q : UFree(q, TouchU(q, T, S0), u, k)) ELSE {}
-  IN IF ~free THEN Fail(S, tags)
+  IN IF trans THEN Fail(S0, IF dfree THEN {"upd_own_inserted_u_fails"} ELSE {})
+     ELSE IF ~free THEN Fail(S, tags)
      ELSE Res(TRUE,
               [S EXCEPT !.view[k] = [u |-> u, v |-> v], !.wrote = @ \cup {k},
                         !.au = IF chk THEN @ \cup {u} ELSE @,
-                        !.ulive = IF "uidx_no_own_removal" \in Q /\ S0.cidx THEN @ \cup {<<u, k>>} ELSE @,
+                        !.ulive = IF S0.cidx /\ ~same /\ Q \cap {"uidx_no_own_removal", "upd_own_inserted_u_fails"} # {} THEN @ \cup {<<u, k>>} ELSE @,
                         !.maxpk = newmax, !.autoids = IF auto THEN @ \cup {k} ELSE @],
               1, k, <<>>, tags)
 
@@ -466,6 +472,14 @@ CountsMatchAppliedStep ==
                         + Cardinality({i \in S0.wrote \cap LiveIds(S0.view) : r.S.view[i] = S0.view[i]
                                          /\ (last'.k \in {"updAllV"} \/ (last'.k \in {"ups", "updU", "updV"} /\ i = last'.id))})
 RollbackToUndoesExactlySuffix == [][RollbackToStep]_vars
+\* a statement succeeds or fails, and a query answers, exactly as the design does on (snapshot + own earlier statements)
+StatementsSeeOwnWritesStep ==
+  (last'.k \in DmlKinds \cup QryKinds) =>
+     LET s == last'.s
+         S0 == IF sess[s].st = "tx" THEN Replay(sess[s]) ELSE BeginSession({}, tbl, 0)
+         r == Exec({}, S0.snap, S0, St(last'.k, IF last'.k = "insA" /\ last'.out = "ok" THEN last'.pk ELSE last'.id, last'.u, last'.v))
+     IN (last'.out = "ok") = r.ok /\ (r.ok => last'.res = r.res)
+StatementsSeeOwnWrites == [][StatementsSeeOwnWritesStep]_vars
 NoDirtyReadsAct == [][SnapshotFixed]_vars
 FailedStatementNoEffect == [][FailedStatementNoEffectStep]_vars
 AllOrNothing == [][AllOrNothingStep]_vars
